@@ -25,7 +25,7 @@ STRICT_FORMS = {'convenience-values', 'convenience-name', 'grades-values', 'full
 BAD = ['length-mismatch', 'length-mismatch-grades', 'keys-outside-grades', 'kw-outside-grades', 'invalid-grade', 'negative-grade',
        'graded-incomplete-keys', 'graded-incomplete-mapping', 'graded-incomplete-kw', 'graded-incomplete-name', 'graded-incomplete-fromkw-perm',
        'kw-blade-outside-algebra', 'repeated-grade', 'int-key-outside-algebra', 'kw-same-blade-twice', 'kw-with-values']
-KINDS = ['int', 'frac', 'float', 'str', 'sympy', 'ndarray']
+KINDS = ['int', 'frac', 'float', 'str', 'sympy', 'ndarray', 'nd-complex', 'nd-int64', 'nd-float32']
 
 
 def floors(tier):
@@ -72,7 +72,28 @@ def value_of(rng, kind, i):
         return sympy.Symbol(f's{i}') + 1
     if kind == 'ndarray':
         return np.array([rng.randint(1, 9) / 2.0, rng.randint(-9, -1) / 2.0])
+    # rows of ONE two-dimensional numpy array that is handed over as the value container (the multivector is then array-backed):
+    # dtypes that do not fit into float64 must be read back unchanged as well
+    if kind == 'nd-complex':
+        return np.array([complex(rng.randint(1, 9), rng.randint(1, 9)), complex(rng.randint(-9, -1), rng.randint(1, 9)) / 2])
+    if kind == 'nd-int64':
+        return np.array([2 ** 53 + 2 * rng.randint(1, 99) + 1, -(2 ** 60) - 2 * rng.randint(1, 99) - 1], dtype=np.int64)
+    if kind == 'nd-float32':
+        return np.array([rng.randint(1, 9) / 2.0, rng.randint(-9, -1) / 4.0], dtype=np.float32)
     raise KeyError(kind)
+
+
+def exact_int_mismatch(a, b):
+    """True if both are integer-valued arrays/numbers and differ as Python integers (float64 comparisons round beyond 2**53)."""
+    import numpy as np
+    try:
+        A, B = np.asarray(a), np.asarray(b)
+        if A.dtype.kind not in 'iu' and B.dtype.kind not in 'iu':
+            return False
+        A, B = np.broadcast_arrays(A, B)
+        return [int(x) for x in A.ravel()] != [int(y) for y in B.ravel()]
+    except Exception:
+        return False
 
 
 def expected_value(v):
@@ -187,6 +208,20 @@ def good_case(ctx, alg, iso, cfg, name, form):
 
     def construct():
         from kingdon.multivector import MultiVector
+        if kind.startswith('nd-') and form in ('keys-int', 'fromkeysvalues', 'full-values', 'grades-values', 'convenience-values'):
+            import numpy as np
+            ctx.count('array_backed_constructions')
+            rows = np.array([t['value'] for t in (table if form in ('full-values', 'grades-values', 'convenience-values') else tb)])
+            if form == 'keys-int':
+                return alg.multivector(values=rows, keys=tuple(t['key'] for t in tb))
+            if form == 'fromkeysvalues':
+                return MultiVector.fromkeysvalues(alg, tuple(t['key'] for t in tb), rows)
+            if form == 'full-values':
+                return alg.multivector(values=rows)
+            if form == 'grades-values':
+                return alg.multivector(values=rows, grades=grades)
+            f = getattr(alg, ctor)
+            return f(rows, grade=grades[0]) if ctor == 'purevector' else f(rows)
         if form == 'keys-int':
             return alg.multivector(values=[t['value'] for t in tb], keys=tuple(t['key'] for t in tb))
         if form == 'keys-name':
@@ -294,7 +329,7 @@ def read_back(ctx, alg, iso, mv, expected):
     items = dict(zip(keys, vals))
     ctx.count('items_reads', len(items))
     for k, v in items.items():
-        if not coef_equal(v, expected.get(k, 0)):
+        if not coef_equal(v, expected.get(k, 0)) or exact_int_mismatch(v, expected.get(k, 0)):
             P.append(['items', alg.bin2canon.get(k, k), show(v, 50), show(expected.get(k, 0), 50)])
     for k, v in expected.items():
         ctx.count('contains_reads', 2)
@@ -387,7 +422,7 @@ def read_back(ctx, alg, iso, mv, expected):
         if fk != want_keys:
             P.append(['asfullmv keys', canonical, list(fk)[:8]])
         for k, v in zip(fk, f.values()):
-            if not coef_equal(v, expected.get(k, 0)):
+            if not coef_equal(v, expected.get(k, 0)) or exact_int_mismatch(v, expected.get(k, 0)):
                 P.append(['asfullmv', canonical, alg.bin2canon.get(k, k), show(v, 40), show(expected.get(k, 0), 40)])
     # map
     try:
@@ -440,7 +475,8 @@ def read_back(ctx, alg, iso, mv, expected):
         f1 = mv.filter(lambda v: marks.get(id(v), False))
         ctx.count('filter_reads')
         want1 = {k: v for i, (k, v) in enumerate(zip(keys, vals)) if marks[id(v)]}
-        if len(marks) == len(vals) and (set(f1.keys()) != set(want1) or any(not coef_equal(v, want1[k]) for k, v in zip(f1.keys(), f1.values()))):
+        # (rows of an array-backed multivector are fresh view objects on every read: identity marks do not apply to them)
+        if len(marks) == len(vals) and not hasattr(mv.values(), 'dtype') and (set(f1.keys()) != set(want1) or any(not coef_equal(v, want1[k]) for k, v in zip(f1.keys(), f1.values()))):
             P.append(['filter-1arg', sorted(f1.keys()), sorted(want1)])
         if not any(hasattr(v, 'shape') for v in vals):
             f0 = mv.filter()
